@@ -16,7 +16,9 @@
 (*     full    : pattern labels = name                                     *)
 (*     domain  : pattern is a LABEL suffix of name (empty matches all)     *)
 (*     keyword : pattern string is a substring of Str(name)                *)
-(*     regexp  : family  ^p  p$  (^|\.)p$  ^p$  p   on Str(name)          *)
+(*     regexp  : family  ^p  p$  (^|\.)p$  ^p$  p   on Str(name), plus     *)
+(*               \S+\.p$  ^p\.\S+$  ^P (upper case): expression text is   *)
+(*               never case-folded                                         *)
 (*   Allowed(name) = indices of the rules whose value may be returned:     *)
 (*     the full match (later duplicate overrides), else the LONGEST        *)
 (*     matching domain rule (later duplicate overrides), else ANY matching *)
@@ -103,6 +105,11 @@ KwPats ==
             Len(k) >= 1 /\ Len(k) <= KwLen /\ k[Len(k)] # "."}
 
 Forms == {"pre", "suf", "bsuf", "eq", "sub"}
+\* forms whose concrete text contains upper-case characters: a regular expression is NOT case-normalised
+\* (only full/domain/keyword rules are), it merely sees the normalised name.
+\*   ssuf  \S+\.p$   (lower-cased: \s+\.p$ matches no name)     spre  ^p\.\S+$
+\*   upper ^P  with P = p written in upper case: matches no (lower-case, normalised) name
+Forms2 == {"ssuf", "spre", "upper"}
 
 RuleUniverse ==
     (IF "full" \in Types
@@ -114,7 +121,8 @@ RuleUniverse ==
     \cup (IF "keyword" \in Types
      THEN {[t |-> "keyword", f |-> "-", ls |-> <<>>, k |-> q] : q \in KwPats} ELSE {})
     \cup (IF "regexp" \in Types
-     THEN {[t |-> "regexp", f |-> g, ls |-> p, k |-> <<>>] : g \in Forms, p \in Range(UpTo(1, MaxRePat))} ELSE {})
+     THEN {[t |-> "regexp", f |-> g, ls |-> p, k |-> <<>>] : g \in Forms, p \in Range(UpTo(1, MaxRePat))}
+          \cup {[t |-> "regexp", f |-> g, ls |-> p, k |-> <<>>] : g \in Forms2, p \in Range(UpTo(1, 1))} ELSE {})
 
 \* the pattern text of a rule (characters), before any type prefix
 Pat(r) == IF r.t = "keyword" THEN r.k ELSE Str(r.ls)
@@ -125,6 +133,9 @@ ReMatch(form, p, s) ==
       [] form = "bsuf" -> p = s \/ IsSuffix(<<".">> \o p, s)
       [] form = "eq"   -> p = s
       [] form = "sub"  -> IsSubstr(p, s)
+      [] form = "ssuf" -> IsSuffix(<<".">> \o p, s)      \* a name never starts with ".": \S+ is non-empty
+      [] form = "spre" -> IsPrefix(p \o <<".">>, s)      \* a normalised name never ends with "."
+      [] form = "upper" -> FALSE
 
 ---------------------------------------------------------------------------
 \* CONTRACT
